@@ -2,8 +2,12 @@
 
 specs: RefineFlow.tla (protocol of refinegrains: the grain translation travels through the global parameter object;
        all interleavings of the public calls; peak ownership explicit: the competing-owner rule of score_and_assign,
-       BestOwner / OrderIndependent), TraceRefineFlow.tla (trace validation of real runs: protocol + the assignment
-       action replayed call by call + outcome).
+       BestOwner / OrderIndependent; the save step with its (grain object, key) pairs for both values of sort_npks and
+       the per-peak column state, SavedColumnsOwn), TraceRefineFlow.tla (trace validation of real runs: protocol + the
+       assignment action replayed call by call + the save step + outcome), OmegaFloat.tla (the omega-float rule of
+       compute_gv over the omega range of the scan x omegasign x slop, stated without the wrap; every case emitted).
+Mode A: every OmegaFloat case is replayed into the real refinegrains.compute_gv on a one-peak grain (omega floated:
+       grain.omega_calc and the g-vector against the exact expected angle; omega as observed: the g-vector).
 Mode C: peaks are forward-simulated (c09_sim.py, validated by an independent forward model) from 1..5 strained,
        displaced grains under a geometry configuration (flips, omegasign, tilts, wedge, chi).  Families: 'random'
        (independent orientations), 'subgrain' (a grain 6..20 mrad and 5..80 um away from another one) and 'twin'
@@ -11,13 +15,22 @@ Mode C: peaks are forward-simulated (c09_sim.py, validated by an independent for
        larger error for the grain that did not produce them; these scenarios are run twice, with the grains listed
        in two different orders in the ubi file.  Routes: scripts/makemap.py's makemap() and the refinegrains calls
        of a user script (assignlabels / refineubis / refinepositions with a tightening tolerance / savegrains /
-       writefile), on perturbed starting grains, omega as observed and floated.  Wrappers installed from the harness
+       writefile), on perturbed starting grains, omega as observed and floated, savegrains with sort_npks off and on
+       (grains listed by increasing number of peaks, so that sorting permutes them), the simulated omegas presented in
+       the scan ranges 0..360, -360..0, -180..180, 360..720, -90..270, 90..450, -270..90, 180..540 with omegasign +1 and
+       -1, OmSlop 0.05 and 0.25.  Wrappers installed from the harness
        record set_translation / compute_gv / gof / refine / score_and_assign (arguments, and the label / error arrays
        after every call) / cImageD11.compute_gv.  For every score_and_assign call the error of that grain on every
        peak is recomputed by c09_sim (forward model of the harness, ubi and translation the call was made with);
        TLC validates the call sequence against the protocol rules, every call against the assignment rule, every
        pass against "owner = strictly smallest error inside the tolerance = generating grain = owner in the run with
-       the other grain order", and the logged outcome (bounds, saved labels / hkl / counts / unindexed file).
+       the other grain order", the save step (key loaded = grain whose columns are filled, its own translation, every
+       grain once, file order by decreasing npks / by place) and the logged outcome (bounds, saved labels / hkl / counts /
+       unindexed file, grain file = the grain objects).  EVERY per-peak column of the saved .flt.new (own parser) and of
+       the table in memory when savegrains returns - h k l hr kr lr gx gy gz tth_per_grain eta_per_grain
+       omegacalc_per_grain (refined ubi and translation of the grain that owns the peak, omega floated by the harness's
+       own Bragg solver when OmFloat) and Lorentz_per_grain drlv2 (filled by the assignment pass before the save: ubi /
+       translation of that call) - is judged against c09_sim's forward model to the resolution of its representation.
 """
 import os, sys, json, io, contextlib, time, types, importlib.util
 import numpy as np
@@ -49,6 +62,8 @@ class Recorder(object):
         self.last_t = None         # translation the last kernel compute_gv was called with
         self.calls = []            # per score_and_assign call: ubi, t, tol, label, labels / drlv2 after the call
         self.passes_at_save = None # score_and_assign calls made when savegrains started
+        self.save_cols = None      # the peak table in memory when savegrains returned (column name -> copy)
+        self.save_grains = None    # place -> (ubi, translation, ind) of the grain objects when savegrains returned
         self.contested_judged = 0
         self.contested_later = 0
 
@@ -76,7 +91,18 @@ class Recorder(object):
 
         def savegrains(o, filename, sort_npks=True):
             R.passes_at_save = len(R.calls)
-            return R.saved["savegrains"](o, filename, sort_npks=sort_npks)
+            sc0 = o.scannames[0]
+            R.ev.append({"k": "savebegin", "sort": bool(sort_npks),
+                         "npks": [int(getattr(o.grains[(g, sc0)], "npks", -1)) for g in o.grainnames]})
+            try:
+                return R.saved["savegrains"](o, filename, sort_npks=sort_npks)
+            finally:
+                sd = o.scandata[sc0]
+                R.save_cols = {c: np.array(getattr(sd, c)).copy() for c in sd.titles}
+                R.save_grains = {int(g): (np.array(o.grains[(g, sc0)].ubi, float).copy(),
+                                          np.array(o.grains[(g, sc0)].translation, float).copy(),
+                                          np.array(getattr(o.grains[(g, sc0)], "ind", []), int).copy()) for g in o.grainnames}
+                R.ev.append({"k": "saveend", "written": written_places(filename)})
 
         def set_translation(o, gr, sc):
             R.obj = o
@@ -142,6 +168,19 @@ class Recorder(object):
         self.rg.cImageD11 = self.saved["cmod"]
 
 
+def written_places(filename):
+    """places (1-based, from the #name lines "place:peakfile") of the grains in the order the grain file lists them;
+    parsed here, not with grain.read_grain_file"""
+    out = []
+    try:
+        for line in open(filename):
+            if line.startswith("#name"):
+                out.append(int(line.split()[1].split(":")[0]) + 1)
+    except (OSError, ValueError, IndexError):
+        return []
+    return out
+
+
 def load_makemap():
     path = os.path.join(common.REPO, "scripts", "makemap.py")
     spec = importlib.util.spec_from_file_location("verif_makemap", path)
@@ -158,11 +197,26 @@ MARGIN_STRAY = 0.02        # generator: strays stay this far outside the toleran
 MIN_CONTESTED = 8          # generator: contested families must produce at least this many contested peaks (start grains)
 FAMILIES = ("random", "subgrain", "twin")
 ORDERS = {"id": lambda n: list(range(n)), "rev": lambda n: list(range(n))[::-1], "rot": lambda n: list(range(1, n)) + [0]}
+# the omega range of the scan: the simulated angles (uncompute_g_vectors gives (-180, 180]) x omegasign are presented in
+# [lo, lo + 360).  None = as simulated.  With omegasign = -1 the angle the code works with (omega x omegasign) then lies in
+# (-lo - 360, -lo]: both signs of every range occur (omegasign is bit 5 of the scenario number).
+OMRANGES = (None, 0.0, -360.0, -180.0, 360.0, -90.0, 90.0, -270.0, 180.0)
+OMSLOP = 0.05              # degrees, OmSlop of a run unless the plan says otherwise (0.25: the start error of 2 mrad never clips)
 
 
-def plan_entry(k, ng, omf, notrans=False, fam="random", order="id", tol=0.05, route="makemap"):
+def plan_entry(k, ng, omf, notrans=False, fam="random", order="id", tol=0.05, route="makemap", omrange=None, sort=False, slop=OMSLOP):
     return {"scenario": k, "ngrains": ng, "omega_float": bool(omf), "notrans": bool(notrans), "family": fam, "order": order,
-            "tol": tol, "route": route}
+            "tol": tol, "route": route, "omrange": omrange, "sort": bool(sort), "slop": float(slop)}
+
+
+def place_order(sp, data):
+    """place p of the ubi file holds grain order[p].  'asc' lists the grains by increasing number of simulated peaks, so
+    that savegrains(sort_npks=True) (decreasing number of peaks) has to permute all of them."""
+    n = sp["ngrains"]
+    if sp["order"] == "asc":
+        counts = [int((data["gen"] == g).sum()) for g in range(n)]
+        return [int(g) for g in np.argsort(counts, kind="stable")]
+    return ORDERS[sp["order"]](n)
 
 
 def generate(sp, mods):
@@ -205,6 +259,8 @@ def generate(sp, mods):
             if ok:
                 stray.append([cand[0], cand[1], cand[2], -1.0, 0.0, 0.0, 0.0])
         full = np.vstack([tab, np.array(stray)])
+        if sp.get("omrange") is not None:
+            full[:, 2] = c09_sim.to_range(full[:, 2], sp["omrange"])       # the same peaks seen in another scan range
         start = []
         for (ubi, t) in grains:
             u0 = ubi @ c09_sim.small_rotation(rng, 2e-3).T
@@ -260,11 +316,11 @@ def run_route(sp, mods, files, rec):
     if sp["route"] == "makemap":
         opts = types.SimpleNamespace(parfile=parfile, fltfile=fltfile, ubifile=ubifile, newubifile=newubi, newfltfile=newflt,
                                      tthrange=None, latticesymmetry="triclinic", symmetry="triclinic", tol=sp["tol"],
-                                     omega_float=bool(sp["omega_float"]), omega_slop=0.05, sort_npks=False)
+                                     omega_float=bool(sp["omega_float"]), omega_slop=sp["slop"], sort_npks=bool(sp["sort"]))
         makemap.makemap(opts)
         return
     # "api": assignlabels + refineubis(scoreonly) first, then refinepositions with a tightening tolerance, save, re-assign
-    o = rgmod.refinegrains(OmFloat=bool(sp["omega_float"]), OmSlop=0.05)
+    o = rgmod.refinegrains(OmFloat=bool(sp["omega_float"]), OmSlop=sp["slop"])
     o.loadparameters(parfile)
     o.loadfiltered(fltfile)
     o.readubis(ubifile)
@@ -276,7 +332,7 @@ def run_route(sp, mods, files, rec):
         o.tolerance = float(tol)
         rec.ev.append({"k": "usertol", "tol": tolid(tol)})
         o.refinepositions()
-    o.savegrains(newubi, sort_npks=False)
+    o.savegrains(newubi, sort_npks=bool(sp["sort"]))
     o.scandata[fltfile].writefile(fltfile + ".new")
     o.assignlabels()
     col = o.scandata[fltfile].copy()
@@ -294,6 +350,130 @@ def read_positions(fltfile, n):
     if titles is None or arr.shape != (n, len(titles)):
         raise common.MachineryError("cannot parse the peak file written for the scenario")
     return tuple(arr[:, titles.index(c)].copy() for c in ("sc", "fc", "omega"))
+
+
+def read_table(path):
+    """a written peak file parsed here (not with the columnfile reader): titles, values (rows x columns) and the number
+    of decimals every column was printed with (its resolution in the file)"""
+    titles, rows, dec = None, [], None
+    for line in open(path):
+        if line.startswith("#"):
+            if "=" not in line and len(line.split()) > 3:
+                titles = line[1:].split()
+            continue
+        tok = line.split()
+        if not tok:
+            continue
+        rows.append([float(x) for x in tok])
+        d = [len(x.split(".")[1]) if "." in x and "e" not in x.lower() else (0 if "e" not in x.lower() else 12) for x in tok]
+        dec = d if dec is None else [max(a, b) for a, b in zip(dec, d)]
+    arr = np.array(rows, float).reshape(len(rows), -1)
+    if titles is None or (len(rows) and arr.shape[1] != len(titles)):
+        raise common.MachineryError("cannot parse the peak file %s" % path)
+    return titles, arr, dict(zip(titles, dec or []))
+
+
+# per-peak columns savegrains / assignlabels fill ; every one is judged in the saved file and in the table in memory
+PEAK_COLUMNS = ("h", "k", "l", "hr", "kr", "lr", "gx", "gy", "gz", "tth_per_grain", "eta_per_grain", "omegacalc_per_grain",
+                "Lorentz_per_grain", "drlv2")
+FLOAT_SENSITIVE = ("hr", "kr", "lr", "gx", "gy", "gz", "omegacalc_per_grain")
+# model tolerance of an expected value when omega is floated: compute_gv floats omega with a ubi re-fitted to the peaks
+# (score_and_refine inside compute_gv) instead of the stored one; on converged exact data the two agree to ~1e-6 relative.
+# Worst seen on the unchanged tree over 430 runs: g 1.3e-6, hkl 4.5e-6.  The floated angle itself is ill conditioned
+# for g-vectors near the rotation axis: its tolerance is the g tolerance divided by the distance of g from the axis.
+TOL_FLOAT = {"hr": 3e-4, "kr": 3e-4, "lr": 3e-4, "gx": 3e-5, "gy": 3e-5, "gz": 3e-5}
+
+
+def expected_columns(data, rec, sp, order):
+    """every per-peak column from the harness's own forward model: a peak labelled p carries the values of the grain
+    object of place p with the ubi and translation it holds when savegrains returns (the refined values).  Returns
+    (expected {column -> array}, rows judged {column -> bool array}) for all rows of the table."""
+    pars = data["pars"]
+    sc, fc, om = data["as_written"]
+    n = len(sc)
+    labels = np.asarray(rec.save_cols["labels"]).astype(int)
+    exp = {c: np.zeros(n) for c in PEAK_COLUMNS}
+    ok = {c: np.zeros(n, bool) for c in PEAK_COLUMNS}
+    mtol = {c: np.zeros(n) for c in PEAK_COLUMNS}
+    ng = len(order)
+    nsave = rec.passes_at_save
+    for p in range(ng):
+        rows = np.nonzero(labels == p)[0]
+        if not len(rows) or p not in rec.save_grains:
+            continue
+        ubi, t, _ = rec.save_grains[p]
+        a, b, c = sc[rows], fc[rows], om[rows]
+        tth, eta = c09_sim.tth_eta(a, b, c, t, pars)
+        g_obs = c09_sim.forward(a, b, c, t, pars)
+        hkli = np.floor(g_obs @ ubi.T + 0.5)
+        sure = np.ones(len(rows), bool)
+        if sp["omega_float"]:
+            omf, sure, _ = c09_sim.floated_omega(a, b, c, hkli, ubi, t, pars, sp["slop"])
+            g = c09_sim.forward(a, b, c, t, pars, omega_rot=np.where(sure, omf, c * pars["omegasign"]))
+        else:
+            omf, g = np.zeros(len(rows)), g_obs
+        hr = g @ ubi.T
+        hk = np.floor(hr + 0.5)
+        clear = np.abs(hr - np.rint(hr)).max(axis=1) < 0.45            # the integer is not in doubt
+        vals = {"h": hk[:, 0], "k": hk[:, 1], "l": hk[:, 2], "hr": hr[:, 0], "kr": hr[:, 1], "lr": hr[:, 2],
+                "gx": g[:, 0], "gy": g[:, 1], "gz": g[:, 2], "tth_per_grain": tth, "eta_per_grain": eta, "omegacalc_per_grain": omf}
+        # Lorentz_per_grain and drlv2 are filled by the assignment pass before the save (with the ubi / translation of that call)
+        call = [cl for cl in rec.calls[nsave - ng:nsave] if cl["label"] == p] if nsave and nsave >= ng else []
+        if sp["omega_float"]:
+            for col, v in TOL_FLOAT.items():
+                mtol[col][rows] = v
+            mtol["omegacalc_per_grain"][rows] = np.degrees(TOL_FLOAT["gx"] / np.maximum(np.hypot(g[:, 0], g[:, 1]), 1e-9))
+        for col, v in vals.items():
+            exp[col][rows] = v
+            ok[col][rows] = (sure if col in FLOAT_SENSITIVE else True) & (clear if col in ("h", "k", "l") else True)
+        if len(call) == 1 and call[0]["t"] is not None:
+            t2, e2 = c09_sim.tth_eta(a, b, c, call[0]["t"], pars)
+            exp["Lorentz_per_grain"][rows] = np.sin(np.radians(t2)) * np.abs(np.sin(np.radians(e2)))
+            exp["drlv2"][rows] = c09_sim.hkl_errors(a, b, c, call[0]["ubi"], call[0]["t"], pars)
+            ok["Lorentz_per_grain"][rows] = ok["drlv2"][rows] = True
+    return exp, ok, mtol
+
+
+def judge_columns(data, rec, sp, order, table):
+    """deviation / bound of every per-peak column, in the saved peak file ('file:') and in memory ('mem:').  Bounds: the
+    resolution of the representation (half a unit of the last printed decimal; float32 columns 2e-7 relative) plus the
+    model tolerance (1e-9 relative; TOL_FLOAT for the columns that depend on the floated omega)."""
+    titles, arr, decimals = table
+    exp, ok, mtol = expected_columns(data, rec, sp, order)
+    out = {}
+    for col in PEAK_COLUMNS:
+        rows = np.nonzero(ok[col])[0]
+        e = exp[col][rows]
+        model = 1e-9 * np.maximum(1.0, np.abs(e)) + 1e-12 + mtol[col][rows]
+        if col == "Lorentz_per_grain":
+            model = model + 2e-6           # float32 tth / eta pushed through float32 sin
+        if col == "drlv2":
+            model = model + 1e-5 * np.abs(e)
+        for where in ("file", "mem"):
+            if where == "file":
+                if col not in titles:
+                    out["file:" + col] = (float("inf"), 1.0, 0)
+                    continue
+                x = arr[rows, titles.index(col)]
+                res = 0.5 * 10.0 ** (-decimals[col]) * (1 + 1e-6)
+                if col in rec.save_cols and rec.save_cols[col].dtype == np.float32:
+                    res = res + 2e-7 * np.maximum(1.0, np.abs(e))
+            else:
+                if col not in rec.save_cols:
+                    out["mem:" + col] = (float("inf"), 1.0, 0)
+                    continue
+                x = np.asarray(rec.save_cols[col], float)[rows]
+                res = 2e-7 * np.maximum(1.0, np.abs(e)) if rec.save_cols[col].dtype == np.float32 else 0.0
+            d = np.abs(x - e)
+            if col == "eta_per_grain":
+                d = np.abs(c09_sim.wrap180(x - e))
+            ratio = d / (res + model)
+            if len(rows):
+                w = int(np.argmax(ratio))
+                out[where + ":" + col] = (float(d[w]), float((res + model)[w]) if np.ndim(res + model) else float(res + model), len(rows))
+            else:
+                out[where + ":" + col] = (0.0, 1.0, 0)
+    return out
 
 
 def judge_assignment(data, rec, order, tracked, peer):
@@ -357,14 +537,35 @@ def judge_assignment(data, rec, order, tracked, peer):
     return passes, py_bad, examples
 
 
-def scenario(chk, sp, mods, tag, data=None, peer=None):
+def probe_columns(data, rec, sp, order, table):
+    """self-test of the column judgement on a real run: one entry of every column moved by 4 bounds must be rejected"""
+    titles, arr, decimals = table
+    base = judge_columns(data, rec, sp, order, table)
+    labels = np.asarray(rec.save_cols["labels"]).astype(int)
+    row = int(np.nonzero(labels >= 0)[0][0])
+    for col in PEAK_COLUMNS:
+        a2 = arr.copy()
+        a2[row, titles.index(col)] += 4 * max(base["file:" + col][1], 0.5 * 10.0 ** (-decimals[col])) + (1.0 if col in ("h", "k", "l") else 0.0)
+        saved = rec.save_cols[col]
+        rec.save_cols[col] = saved.astype(float).copy()
+        rec.save_cols[col][row] += 4 * base["mem:" + col][1] + (1.0 if col in ("h", "k", "l") else 0.0)
+        try:
+            out = judge_columns(data, rec, sp, order, (titles, a2, decimals))
+        finally:
+            rec.save_cols[col] = saved
+        for where in ("file:", "mem:"):
+            if not out[where + col][0] > out[where + col][1]:
+                raise common.MachineryError("selftest: a corrupted %s%s entry was accepted" % (where, col))
+
+
+def scenario(chk, sp, mods, tag, data=None, peer=None, probe=False):
     """run one simulated scenario; returns (trace record, meta, per-pass owners)"""
     transform, unitcell_mod, parameters, columnfile, grain, rgmod, makemap = mods
     if data is None:
         data = generate(sp, mods)
     ngrains, notrans = sp["ngrains"], sp["notrans"]
     pars, grains, full, gen = data["pars"], data["grains"], data["full"], data["gen"]
-    order = ORDERS[sp["order"]](ngrains)          # place p of the ubi file holds grain order[p]
+    order = place_order(sp, data)                 # place p of the ubi file holds grain order[p]
     d = os.path.join(common.scratch(), "c09_%s" % tag)
     os.makedirs(d, exist_ok=True)
     parfile, fltfile, ubifile = [os.path.join(d, n) for n in ("sim.par", "sim.flt", "start.map")]
@@ -376,7 +577,7 @@ def scenario(chk, sp, mods, tag, data=None, peer=None):
                                        "sum_intensity": np.full(len(full), 1000.0), "spot3d_id": np.arange(len(full), dtype=float)})
     cf.parameters = po
     cf.writefile(fltfile)
-    data["as_written"] = read_positions(fltfile, len(full))
+    data = dict(data, as_written=read_positions(fltfile, len(full)))
     grain.write_grain_file(ubifile, [grain.grain(data["start"][g][0], translation=data["start"][g][1]) for g in order])
     rec = Recorder(rgmod, ngrains)
     rec.install()
@@ -408,16 +609,28 @@ def scenario(chk, sp, mods, tag, data=None, peer=None):
     if not np.array_equal(flt.spot3d_id, np.arange(len(full))):
         raise common.MachineryError("row order of the saved peak file changed; cannot align with the simulation")
     dubi, dt, bubi = [], [], []
-    files_ok = len(out) == ngrains
+    # a saved grain is tied to its label by its name "place:peakfile" (savegrains may list the grains in another order)
+    byplace = {}
+    for og in out:
+        try:
+            byplace.setdefault(int(str(og.name).split(":")[0]), []).append(og)
+        except (AttributeError, ValueError):
+            pass
+    files_ok = len(out) == ngrains and sorted(byplace) == list(range(ngrains)) and all(len(v) == 1 for v in byplace.values())
     labels_ok = hkl_ok = npks_ok = True
-    for p, g in enumerate(order):                # sort_npks=False keeps the order of the input grains
+    for p, g in enumerate(order):
         ubi, t = grains[g]
-        if p >= len(out):
+        if p not in byplace:
             dubi.append(10 ** 9)
             dt.append(10 ** 9)
             bubi.append(0)
             continue
-        og = out[p]
+        og = byplace[p][0]
+        # the grain file carries the values the grain objects held when they were saved (%.9g / %g text)
+        if rec.save_grains is None or p not in rec.save_grains or \
+                np.abs(og.ubi - rec.save_grains[p][0]).max() > 2e-9 * np.abs(og.ubi).max() or \
+                np.abs(np.asarray(og.translation) - rec.save_grains[p][1]).max() > 1e-5 * max(1.0, np.abs(rec.save_grains[p][1]).max()):
+            files_ok = False
         dubi.append(int(np.ceil(np.abs(og.ubi - ubi).max() * 1e9)))
         bubi.append(int(BOUND_UBI_REL * np.abs(ubi).max() * 1e9))
         dt.append(int(np.ceil(np.abs(np.asarray(og.translation) - t).max() * 1e3)))      # nanometres
@@ -428,9 +641,9 @@ def scenario(chk, sp, mods, tag, data=None, peer=None):
             hkl_ok = False
         # the per-grain peak list of the saved grain file: its count, and the name that ties it to the label
         try:
-            if int(og.npks) != int(sel.sum()) or int(str(og.name).split(":")[0]) != p:
+            if int(og.npks) != int(sel.sum()) or not np.array_equal(np.sort(rec.save_grains[p][2]), np.nonzero(sel)[0]):
                 npks_ok = False
-        except (AttributeError, ValueError):
+        except (AttributeError, ValueError, TypeError, KeyError):
             npks_ok = False
     if (flt.labels[gen < 0] >= 0).any():
         labels_ok = False
@@ -448,6 +661,12 @@ def scenario(chk, sp, mods, tag, data=None, peer=None):
     except Exception:      # noqa  (an empty selection cannot be written / read back)
         unids = np.zeros(0, int)
     unindexed_ok = np.array_equal(unids, np.nonzero(rec.calls[-1]["labels"] < 0)[0]) and np.array_equal(unids, np.nonzero(gen < 0)[0])
+    # every per-peak column of the saved peak file (own parser) and of the table in memory against the forward model
+    cols = judge_columns(data, rec, sp, order, read_table(fltfile + ".new")) if rec.save_cols is not None else {"savegrains": (float("inf"), 1.0, 0)}
+    if probe and rec.save_cols is not None:
+        probe_columns(data, rec, sp, order, read_table(fltfile + ".new"))
+    colnames = sorted(cols)
+    cratio = [int(min(2e9, np.ceil(1000.0 * cols[c][0] / cols[c][1]))) for c in colnames]
     p0 = po.parameters
     genplace = {g: p for p, g in enumerate(order)}
     record = {"id": tag, "NG": ngrains, "utol": tolid(sp["tol"]),
@@ -455,6 +674,7 @@ def scenario(chk, sp, mods, tag, data=None, peer=None):
               "dubi": dubi, "bubi": bubi, "dt": dt, "bt": int(BOUND_T * 1e3),
               "labels_ok": bool(labels_ok), "hkl_ok": bool(hkl_ok), "files_ok": bool(files_ok),
               "saved_ok": bool(saved_ok), "npks_ok": bool(npks_ok), "unindexed_ok": bool(unindexed_ok), "py_bad": int(py_bad),
+              "cols": colnames, "cratio": cratio,
               "NT": int(len(tracked)), "gen": [genplace[g] + 1 if g >= 0 else 0 for g in gen[tracked]],
               "ident": [g + 1 for g in order],
               "peer": [[int(x) + 1 if x >= 0 else (0 if x == -1 else -1) for x in pr[tracked]] for pr in (peer or [])]}
@@ -466,12 +686,113 @@ def scenario(chk, sp, mods, tag, data=None, peer=None):
     record["ev"] = rec.ev
     meta["max_dubi"] = max(dubi) / 1e9
     meta["max_dt_um"] = max(dt) / 1e3
+    meta["columns"] = {c: {"deviation": cols[c][0], "bound": cols[c][1], "rows": cols[c][2]} for c in colnames}
+    meta["columns_failed"] = [c for c, r in zip(colnames, cratio) if r > 1000]
     meta["events"] = len(rec.ev)
+    meta["written"] = next((e["written"] for e in rec.ev if e["k"] == "saveend"), [])
+    meta["omega_x_sign_range"] = [float((data["as_written"][2] * pars["omegasign"]).min()), float((data["as_written"][2] * pars["omegasign"]).max())]
     meta["tracked"] = int(len(tracked))
     meta["passes"] = len(passes)
     meta["contested_judged"] = rec.contested_judged       # (row, pass) pairs with two grains inside the tolerance, judged
     meta["contested_later_listed"] = rec.contested_later  # ... of which a grain listed after the owner is inside the tolerance
     return record, meta, passes
+
+
+def omega_float_cases(chk, mods, tier, only=None):
+    """OmegaFloat.tla: every (omegasign, scan range, slop, computed angle, offset) case replayed into the real
+    refinegrains.compute_gv on a one-peak grain (score_and_refine inside compute_gv leaves a one-peak ubi alone, so the
+    angle the library computes for the peak is `ideal` by construction).  Expected: `used` of the specification (exact
+    ticks) for grain.omega_calc and for the g-vector when omega is floated; the g-vector of the observed angle when not."""
+    transform, unitcell_mod, parameters, columnfile, grain, rgmod, makemap = mods
+    cfg = "OmegaFloat_t" if tier == "thorough" else "OmegaFloat_q"
+    res = common.run_tlc("OmegaFloat", os.path.join(common.SPECS, cfg + ".cfg"), workers=16, timeout=900)
+    chk.add_tlc(cfg, res)
+    if res.violated:
+        raise common.MachineryError("OmegaFloat model violates %s" % res.violated)
+    bug = common.run_tlc("OmegaFloat", os.path.join(common.SPECS, "OmegaFloat_bug.cfg"), workers=16, timeout=900)
+    chk.add_tlc("OmegaFloat fmod wrap (expected: FloatedRight violated)", bug)
+    if "FloatedRight" not in bug.violated:
+        raise common.MachineryError("seeded wrap defect (fmod) not detected by the model (vacuity)")
+    cases, skipped = [], 0
+    for line in res.printed:
+        try:
+            cases.append(json.loads(line))
+        except ValueError:
+            skipped += 1
+    if skipped or not cases:
+        raise common.MachineryError("OmegaFloat: %d unparsable case lines, %d cases" % (skipped, len(cases)))
+    cases.sort(key=lambda c: (c["sign"], c["lo"], c["slop"], c["ideal"], c["delta"]))
+    if only is not None:
+        cases = [c for c in cases if all(c[k] == only[k] for k in ("sign", "lo", "slop", "ideal", "delta"))]
+    rng = np.random.default_rng([common.seed(), 909])
+    settings = []
+    for k in (0, 24, 8, 16):                 # wedge / chi off and on (bits 3, 4 of the scenario number)
+        pars = c09_sim.make_pars(rng, k)
+        WC = c09_sim.wedge_chi(pars)
+        t = rng.uniform(-300, 300, size=3)
+        ub0 = c09_sim.random_rotation(rng) / 4.05
+        pick = None
+        for hkl in ((1, 1, 1), (2, 0, 0), (2, 2, 0), (3, 1, 1), (-1, 1, 1), (0, 2, 0), (0, 0, 2)):
+            g0 = ub0 @ np.array(hkl, float)
+            for om, eta in c09_sim.bragg_omegas(g0[None, :], pars):
+                if pick is None and np.isfinite(om[0]) and 0.3 < abs(np.sin(np.radians(eta[0]))) < 0.95:
+                    pick = (np.array(hkl, float), float(om[0]))
+        if pick is None:
+            raise common.MachineryError("OmegaFloat replay: no usable reflection for the case grain")
+        settings.append((k, pars, WC, t, ub0, pick))
+    objs = {}
+    nbad = 0
+    for i, c in enumerate(cases):
+        k, pars, WC, t, ub0, (hkl, om0) = settings[i % len(settings)]
+        tick = 360.0 / c["turn"]
+        ideal, obs, used, slop = c["ideal"] * tick, c["obs"] * tick, c["used"] * tick, c["slop"] * tick
+        sign = float(c["sign"])
+        ub = c09_sim.rz(np.radians(om0 - ideal)) @ ub0          # the reflection now diffracts at `ideal`
+        gs = ub @ hkl
+        klab = WC @ (c09_sim.rz(np.radians(ideal)) @ gs)
+        dhat = np.array([1.0, 0, 0]) + pars["wavelength"] * klab
+        origin = WC @ (c09_sim.rz(np.radians(obs * sign)) @ t)
+        xyz = (origin + 150000.0 * dhat / np.linalg.norm(dhat))[None, :]
+        got = {}
+        for omf in (True, False):
+            key = (omf, c["slop"])
+            if key not in objs:
+                with contextlib.redirect_stdout(io.StringIO()):
+                    objs[key] = rgmod.refinegrains(OmFloat=omf, OmSlop=slop)
+            o = objs[key]
+            o.parameterobj.parameters.update(dict(pars, omegasign=sign, t_x=t[0], t_y=t[1], t_z=t[2]))
+            o.tolerance = 0.05
+            gr = grain.grain(np.linalg.inv(ub), translation=t.copy())
+            gr.name = "0:case"
+            gr.peaks_xyz, gr.om, gr.omega_calc = xyz.copy(), np.array([obs]), np.array([obs])
+            try:
+                o.compute_gv(gr)
+                got[omf] = (float(gr.omega_calc[0]), np.array(o.gv[0], float))
+            except Exception as e:        # noqa
+                got[omf] = (float("nan"), np.full(3, np.nan))
+        e_on = c09_sim.rz(np.radians(used)).T @ (WC.T @ klab)
+        e_off = c09_sim.rz(np.radians(obs * sign)).T @ (WC.T @ klab)
+        gscale = np.abs(gs).max()
+        what = None
+        if not abs(got[True][0] - used) <= 1e-9 * 360.0 + 1e-12:
+            what = "omega floated: grain.omega_calc = %.9f, expected %.9f" % (got[True][0], used)
+        elif not np.abs(got[True][1] - e_on).max() <= 1e-9 * gscale + 1e-12:
+            what = "omega floated: g-vector off by %.3g" % np.abs(got[True][1] - e_on).max()
+        elif not np.abs(got[False][1] - e_off).max() <= 1e-9 * gscale + 1e-12:
+            what = "omega as observed: g-vector off by %.3g" % np.abs(got[False][1] - e_off).max()
+        elif got[False][0] != 0.0:
+            what = "omega as observed: grain.omega_calc = %r, expected 0" % got[False][0]
+        chk.case(("omegafloat", c["sign"], c["lo"], c["slop"], c["ideal"], c["delta"]), nontrivial=(c["delta"] != 0))
+        chk.traces += 1
+        if what:
+            nbad += 1
+            if nbad <= 5:
+                chk.violation("compute_gv, observed omega %.3f in the scan range [%g, %g), omegasign %+d, OmSlop %.3f, computed angle %.3f: %s"
+                              % (obs, c["lo"] * tick, c["lo"] * tick + 360, c["sign"], slop, ideal, what),
+                              {"omega_float_case": c, "seed": common.seed(), "geometry": k})
+    chk.notes["omega_float_cases"] = len(cases)
+    chk.notes["omega_float_cases_failed"] = nbad
+    return len(cases)
 
 
 def validate(chk, recs, tag):
@@ -504,21 +825,32 @@ def run(tier, replay=None):
                 "position +-0.5 mm, start perturbed by 2 mrad / up to 30 um per axis, 15 stray peaks, omega as observed and floated; "
                 "families random / subgrain / twin (the last two produce peaks inside the tolerance of two grains and are run with two "
                 "grain orders); routes makemap() and the refinegrains calls of a user script; every score_and_assign call judged on every peak "
-                "(tracked sample in TLC, the rest by the harness with the same definitions); "
-                "non-trivial = >= 2 grains or a non-default geometry switch; distinct = (scenario, grains, omega mode, family, order, tolerance, route)")
+                "(tracked sample in TLC, the rest by the harness with the same definitions); the omega range of the scan (8 ranges) x omegasign "
+                "x omega mode x sort_npks x OmSlop (0.05, 0.25); every per-peak column of the saved peak file and of the table in memory judged "
+                "on every owned peak; OmegaFloat.tla cases (sign x range start x slop x computed angle x offset) all replayed into compute_gv; "
+                "non-trivial = >= 2 grains or a non-default geometry switch; distinct = (scenario, grains, omega mode, family, order, tolerance, route, omega range, sort_npks, slop) / OmegaFloat case")
     chk.assumptions = ["peaks generated with the library's inverse functions but each validated by an independent forward model (1e-7)",
                        "bounds: |dUBI| <= 1e-5 max|UBI|, |dt| <= 10 um (0.2 pixel; start offset up to 30 um per axis, as fixed in DESIGN.md), exact labels and hkl",
                        "convergence of the simplex is observed, not modelled",
                        "hkl errors of every grain on every peak recomputed by the harness's forward model from the ubi / translation each score_and_assign "
                        "call was made with; a peak is not judged in a pass when two errors (or an error and tol^2) agree to 1e-6 relative",
+                       "per-peak columns: bound = resolution of the representation (half a unit of the last printed decimal, float32 columns 2e-7 relative) "
+                       "+ 1e-9 relative; with omega floated + 3e-5 on g, 3e-4 on hkl_real, 3e-5/|g_xy| rad on the floated angle (compute_gv floats omega with a "
+                       "ubi re-fitted inside the call, not the stored one); peaks with eta within 0.57 degree of 0/180 are not judged on the float-dependent columns; "
+                       "Lorentz_per_grain and drlv2 are the values of the assignment pass before the save (the code does not refresh them)",
                        "scenario generator (rejection sampling): every simulated peak fits its own starting grain better than any other by 0.002 in |dhkl|, "
                        "no other true grain within 0.003, strays 0.02 outside every tolerance"]
     E = plan_entry
+    omega_only = None
     if replay:
         case = json.load(open(replay))["case"]
         os.environ["VERIF_SEED"] = str(case.get("seed", 0))
-        plan = [E(case["scenario"], case["ngrains"], case["omega_float"], case.get("notrans", False), case.get("family", "random"),
-                  case.get("order", "id"), case.get("tol", 0.05), case.get("route", "makemap"))]
+        if "omega_float_case" in case:
+            omega_only, plan = case["omega_float_case"], []
+        else:
+            plan = [E(case["scenario"], case["ngrains"], case["omega_float"], case.get("notrans", False), case.get("family", "random"),
+                      case.get("order", "id"), case.get("tol", 0.05), case.get("route", "makemap"), case.get("omrange"),
+                      case.get("sort", False), case.get("slop", OMSLOP))]
     elif tier == "quick":
         plan = [E(9, 2, False), E(38, 3, True), E(63, 2, False), E(20, 1, True), E(5, 4, False), E(14, 2, True), E(27, 5, False),
                 E(33, 2, True), E(42, 3, False), E(51, 1, False), E(60, 2, True), E(7, 3, True), E(48, 2, False), E(31, 2, True),
@@ -528,7 +860,20 @@ def run(tier, replay=None):
                 # contested peaks: every one of these is run with the grains listed in two orders
                 E(9, 2, False, fam="subgrain"), E(38, 3, True, fam="subgrain", order="rot"), E(5, 4, False, fam="subgrain", route="api"),
                 E(14, 2, True, fam="twin"), E(27, 5, False, fam="twin"), E(42, 3, False, fam="twin", route="api", order="rot"),
-                E(60, 2, True, fam="subgrain", tol=0.04)]
+                E(60, 2, True, fam="subgrain", tol=0.04),
+                # savegrains(sort_npks=True) (the default of makemap.py) on contested / translation-less starts
+                E(33, 3, True, fam="subgrain", sort=True, order="rot", omrange=0.0), E(29, 4, False, True, sort=True, order="asc"),
+                E(48, 3, False, fam="twin", sort=True, route="api", omrange=-360.0, slop=0.25)]
+        # the omega range of the scan x omegasign (bit 5 of the scenario number) x omega as observed / floated: all 32
+        # combinations, with sort_npks, the route, the slop and the number of grains cycling through them
+        n = 0
+        for omr in OMRANGES[1:]:
+            for k0 in (n % 32, 32 + (5 * n + 3) % 32):
+                for omf in (False, True):
+                    srt = bool(n % 2)
+                    plan.append(E(k0, 1 + (n % 3) + (1 if srt else 0), omf, omrange=omr, sort=srt, order=("asc" if srt else "id"),
+                                  route=("api" if n % 5 == 4 else "makemap"), slop=(0.25 if n % 4 == 2 else OMSLOP)))
+                    n += 1
     else:
         plan = []
         rng = np.random.default_rng(common.seed() + 9)
@@ -540,10 +885,18 @@ def run(tier, replay=None):
                 plan.append(E(k, max(2, ng), bool(k % 8 == 1), True))
             if k % 2 == 0:
                 plan.append(E(k, max(2, ng), bool(k % 4 == 0), fam=("subgrain", "twin")[(k // 2) % 2], order=("rev", "rot")[(k // 4) % 2],
-                              tol=(0.05, 0.04)[(k // 8) % 2], route=("makemap", "api")[(k // 16) % 2]))
+                              tol=(0.05, 0.04)[(k // 8) % 2], route=("makemap", "api")[(k // 16) % 2],
+                              sort=bool((k // 2) % 3 == 1), omrange=OMRANGES[(k // 2) % len(OMRANGES)]))
+            # scan range x omegasign x omega mode x sort_npks: every k takes four of the 8 ranges (all of them over k, k + 1),
+            # both omega modes and both values of sort_npks; grains listed by increasing number of peaks when sorting
+            for j in range(4):
+                omr = OMRANGES[1 + (2 * j + k) % 8]
+                srt = bool((j + k // 2) % 2)
+                plan.append(E(k, max(2, ng) if srt else ng, bool((j + k // 4) % 2), omrange=omr, sort=srt, order=("asc" if srt else "id"),
+                              route=("api" if (k + j) % 7 == 0 else "makemap"), slop=(0.25 if (k + j) % 3 == 0 else OMSLOP)))
     for c, cover in (("RefineFlow_q", True), ("RefineFlow_t", False), ("RefineFlow_t2", False)) if tier == "thorough" else (("RefineFlow_q", True),):
         res = common.run_tlc("RefineFlow", os.path.join(common.SPECS, c + ".cfg"), workers=16, timeout=1800, coverage=cover)
-        chk.add_tlc(c, res, require_cover=(("AssignScore", "RPGof", "RPStore", "PGComputeGv", "PGUse") if cover else ()))
+        chk.add_tlc(c, res, require_cover=(("AssignScore", "RPGof", "RPStore", "PerGrain", "PGSetT", "PGComputeGv", "PGUse") if cover else ()))
         if res.violated:
             raise common.MachineryError("RefineFlow model violates %s" % res.violated)
     res = common.run_tlc("RefineFlow", os.path.join(common.SPECS, "RefineFlow_bug.cfg"), workers=16, timeout=900)
@@ -554,18 +907,26 @@ def run(tier, replay=None):
     chk.add_tlc("RefineFlow LAST_WINS (expected: BestOwner violated)", res)
     if "BestOwner" not in res.violated:
         raise common.MachineryError("seeded assignment defect (last grain listed wins) not detected by the model (vacuity)")
+    if not replay or omega_only is not None:
+        omega_float_cases(chk, mods, tier, only=omega_only)
+    res = common.run_tlc("RefineFlow", os.path.join(common.SPECS, "RefineFlow_bug3.cfg"), workers=16, timeout=900)
+    chk.add_tlc("RefineFlow SORT_OBJ_ONLY (expected: SavedColumnsOwn violated)", res)
+    if "SavedColumnsOwn" not in res.violated:
+        raise common.MachineryError("seeded save defect (grain objects sorted, keys not) not detected by the model (vacuity)")
     recs, metas = [], {}
-    ncont = nlater = 0
+    ncont = nlater = npermuted = nlow = 0
     for i, sp in enumerate(plan):
         contested = sp["family"] != "random"
         data = generate(sp, mods)
         runs = [dict(sp, order="id")]
         if contested or sp["order"] != "id":
             runs.append(dict(sp, order=("rev" if sp["order"] == "id" else sp["order"])))
+        if sp["order"] == "asc" and not contested:
+            runs = [sp]                      # listed by increasing number of peaks: a sorted save reverses the list
         peer = None
         for j, rs in enumerate(runs):
             tag = "s%d%s" % (i, "ab"[j])
-            rec, meta, passes = scenario(chk, rs, mods, tag, data=data, peer=peer)
+            rec, meta, passes = scenario(chk, rs, mods, tag, data=data, peer=peer, probe=(i == 0 and j == 0))
             metas[tag] = meta
             nontrivial = rs["ngrains"] >= 2 or any(meta["pars"][x] != 0 for x in ("tilt_x", "tilt_y", "tilt_z", "wedge", "chi"))
             chk.case(tuple(sorted(rs.items())), nontrivial=nontrivial)
@@ -573,22 +934,40 @@ def run(tier, replay=None):
                 recs.append(rec)
                 ncont += meta["contested_judged"]
                 nlater += meta["contested_later_listed"]
+                npermuted += int(rs["sort"] and meta["written"] != sorted(meta["written"]))
+                nlow += int(rs["omega_float"] and meta["omega_x_sign_range"][0] < -180.0)
             if j == 0:
                 peer = passes
-    if not replay and (ncont < 100 or nlater < 30):
-        raise common.MachineryError("vacuity: only %d contested (peak, pass) pairs judged, %d with a later-listed competitor" % (ncont, nlater))
+    chk.notes["runs_where_sort_npks_permuted_the_grains"] = npermuted
+    chk.notes["omega_float_runs_with_omega_x_sign_below_minus_180"] = nlow
     chk.notes["contested_peak_passes_judged"] = ncont
     chk.notes["contested_with_later_listed_competitor"] = nlater
-    verdicts = validate(chk, recs, "runs")
+    verdicts = validate(chk, recs, "runs") if recs else {}
     for r in recs:
         v = verdicts[r["id"]]
         chk.traces += 1
         if not v["ok"]:
             ev = r["ev"][v["consumed"]] if v["consumed"] < len(r["ev"]) else None
-            chk.violation("run rejected by TraceRefineFlow: %s (after %d events; next event %s; max |dUBI| %.3g, max |dt| %.3g um)" % (
-                v["why"], v["consumed"], json.dumps(ev), metas[r["id"]]["max_dubi"], metas[r["id"]]["max_dt_um"]), metas[r["id"]])
+            m = metas[r["id"]]
+            chk.violation("run rejected by TraceRefineFlow: %s (after %d events; next event %s; max |dUBI| %.3g, max |dt| %.3g um; "
+                          "omega range %s, sort_npks %s, grains written %s; columns off: %s)" % (
+                              v["why"], v["consumed"], json.dumps(ev)[:300], m["max_dubi"], m["max_dt_um"], m["omrange"], m["sort"],
+                              m["written"], ", ".join("%s by %.3g (bound %.3g)" % (c, m["columns"][c]["deviation"], m["columns"][c]["bound"])
+                                                      for c in m["columns_failed"][:6]) or "none"), m)
+    # vacuity (after the verdicts: on a broken tree the violations above are what has to be reported)
+    if not replay and (ncont < 100 or nlater < 30):
+        raise common.MachineryError("vacuity: only %d contested (peak, pass) pairs judged, %d with a later-listed competitor" % (ncont, nlater))
+    if not replay and (npermuted < 8 or nlow < 4):
+        raise common.MachineryError("vacuity: %d runs where savegrains(sort_npks=True) permuted the grains, %d omega-float runs with "
+                                    "omega x omegasign below -180" % (npermuted, nlow))
     if metas:
         chk.sample(metas[sorted(metas)[0]])
+    worst = {}
+    for m in metas.values():
+        for c, v in m.get("columns", {}).items():
+            if v["rows"]:
+                worst[c] = max(worst.get(c, 0.0), v["deviation"] / v["bound"])
+    chk.notes["per_peak_columns_worst_deviation_over_bound"] = {c: round(x, 3) for c, x in sorted(worst.items())}
     chk.notes["worst_dt_um"] = max([m.get("max_dt_um", 0) for m in metas.values()] + [0])
     chk.notes["worst_dubi"] = max([m.get("max_dubi", 0) for m in metas.values()] + [0])
     chk.notes["events_validated"] = sum(len(r["ev"]) for r in recs)
@@ -612,6 +991,32 @@ def selftest(chk=None, recs=None):
     bad3["id"] = "bad3"
     j = next(i for i, e in enumerate(bad3["ev"]) if e["k"] == "assign")
     bad3["ev"][j]["reset"] = False                # assignment pass without reset
+    bad8 = json.loads(json.dumps(base))
+    bad8["id"] = "bad8"
+    bad8["cratio"][0] = 1001                      # a per-peak column further from the forward model than its bound
+    sv = [r for r in recs if r["NG"] >= 2 and any(e["k"] == "savebegin" and e["sort"] for e in r["ev"])]
+    saves = []
+    if sv:
+        r = sv[0]
+        i0 = next(i for i, e in enumerate(r["ev"]) if e["k"] == "savebegin")
+        bad9 = json.loads(json.dumps(r))
+        bad9["id"] = "bad9"
+        j = next(i for i, e in enumerate(bad9["ev"]) if i > i0 and e["k"] == "settrans")
+        bad9["ev"][j]["g"] = bad9["ev"][j]["g"] % r["NG"] + 1       # a grain's columns filled after loading another grain's key
+        bad10 = json.loads(json.dumps(r))
+        bad10["id"] = "bad10"
+        w = next(e for e in bad10["ev"] if e["k"] == "saveend")
+        nk = next(e for e in bad10["ev"] if e["k"] == "savebegin")["npks"]
+        w["written"] = sorted(w["written"], key=lambda p: nk[p - 1])  # listed by increasing number of peaks
+        bad11 = json.loads(json.dumps(r))
+        bad11["id"] = "bad11"
+        j = max(i for i, e in enumerate(bad11["ev"]) if e["k"] == "computegv" and e["upd"])
+        del bad11["ev"][j]                                          # one grain's columns never filled
+        good9 = json.loads(json.dumps(r))
+        good9["id"] = "good9"
+        saves = [good9, bad9, bad11] + ([bad10] if len(set(nk)) > 1 else [])
+    elif chk is not None and not getattr(chk, "is_replay", False) and len(recs) > 5:
+        raise common.MachineryError("selftest: no run with sort_npks and two grains")
     extra = []
     # the assignment rule: a contested tracked peak handed to the later-listed, worse-fitting grain / a changed owner in the
     # run with the other grain order / a mislabelled untracked peak must all be rejected
@@ -644,7 +1049,9 @@ def selftest(chk=None, recs=None):
     if chk is not None and chk.tier == "thorough" and not extra:
         raise common.MachineryError("selftest: no run with a contested tracked peak and a peer run")
     tmp = common.Check(PROP, "quick")
-    v = validate(tmp, [base, bad1, bad2, bad3] + extra, "selftest")
+    v = validate(tmp, [base, bad1, bad2, bad3, bad8] + extra + saves, "selftest")
+    if v["bad8"]["ok"] or (saves and (not v["good9"]["ok"] or any(v[b["id"]]["ok"] for b in saves[1:]))):
+        raise common.MachineryError("selftest: save step not binding: %s" % {b["id"]: v[b["id"]] for b in [bad8] + saves})
     if extra and (not v[extra[0]["id"]]["ok"] or any(v[b["id"]]["ok"] for b in extra[1:])):
         raise common.MachineryError("selftest: assignment rule not binding: %s" % {b["id"]: v[b["id"]] for b in extra})
     if chk is not None:
